@@ -154,6 +154,9 @@ func DistMatrix(al align.Alignment, weights []float64, model DistModel, range1Mi
 		outmatrix[i] = make([]float64, al.NbSequences())
 	}
 
+	// Error of the producer goroutine: kept apart from err, which belongs to the
+	// workers (assigning err here would race with them and could erase their error)
+	var perr error
 	go func() {
 		defer close(distchan)
 		var seq1, seq2 []uint8
@@ -162,24 +165,24 @@ func DistMatrix(al align.Alignment, weights []float64, model DistModel, range1Mi
 				range1Max = al.NbSequences() - 1
 			}
 			if range1Min > range1Max {
-				err = fmt.Errorf("range 1 min is greater than range 1 max")
+				perr = fmt.Errorf("range 1 min is greater than range 1 max")
 				return
 			}
 			if range2Max >= al.NbSequences() {
 				range2Max = al.NbSequences() - 1
 			}
 			if range2Min > range2Max {
-				err = fmt.Errorf("range 2 min is greater than range 2 max")
+				perr = fmt.Errorf("range 2 min is greater than range 2 max")
 				return
 			}
 
 			for i := range1Min; i <= range1Max; i++ {
-				if seq1, err = model.Sequence(i); err != nil {
+				if seq1, perr = model.Sequence(i); perr != nil {
 					return
 				}
 				for j := range2Min; j <= range2Max; j++ {
 					if j != i {
-						if seq2, err = model.Sequence(j); err != nil {
+						if seq2, perr = model.Sequence(j); perr != nil {
 							return
 						}
 						distchan <- seqpairdist{i, j, seq1, seq2, model, weights}
@@ -188,11 +191,11 @@ func DistMatrix(al align.Alignment, weights []float64, model DistModel, range1Mi
 			}
 		} else {
 			for i := 0; i < al.NbSequences(); i++ {
-				if seq1, err = model.Sequence(i); err != nil {
+				if seq1, perr = model.Sequence(i); perr != nil {
 					return
 				}
 				for j := i + 1; j < al.NbSequences(); j++ {
-					if seq2, err = model.Sequence(j); err != nil {
+					if seq2, perr = model.Sequence(j); perr != nil {
 						return
 					}
 					distchan <- seqpairdist{i, j, seq1, seq2, model, weights}
@@ -200,9 +203,6 @@ func DistMatrix(al align.Alignment, weights []float64, model DistModel, range1Mi
 			}
 		}
 	}()
-	if err != nil {
-		return
-	}
 
 	var wg sync.WaitGroup
 	max := 0.0
@@ -225,9 +225,11 @@ func DistMatrix(al align.Alignment, weights []float64, model DistModel, range1Mi
 						mux.Unlock()
 						return
 					}
+					// With overlapping ranges a pair is evaluated twice, (i,j) and (j,i), possibly
+					// by two workers: the cells are written under the lock
+					mux.Lock()
 					outmatrix[sp.i][sp.j] = d
 					outmatrix[sp.j][sp.i] = outmatrix[sp.i][sp.j]
-					mux.Lock()
 					if outmatrix[sp.i][sp.j] < 0 || outmatrix[sp.i][sp.j] == math.Inf(1) || outmatrix[sp.i][sp.j] > NT_DIST_OVER {
 						uncompute = append(uncompute, seqpairdist{sp.i, sp.j, nil, nil, nil, nil})
 					} else if outmatrix[sp.i][sp.j] > max {
@@ -239,6 +241,10 @@ func DistMatrix(al align.Alignment, weights []float64, model DistModel, range1Mi
 		}()
 	}
 	wg.Wait()
+	// The producer has finished (distchan is closed)
+	if err == nil {
+		err = perr
+	}
 
 	for _, sp := range uncompute {
 		outmatrix[sp.i][sp.j] = 2 * max
